@@ -355,7 +355,10 @@ func runHist(w *hx.Writer, id string, r *hx.RNG, ops []hop) {
 			rec := httptest.NewRecorder()
 			c.Api().ServeHTTP(rec, httptest.NewRequest("POST", "/load_dump", bytes.NewReader(dump)))
 			if rec.Code != 200 {
-				fail(id, "/load_dump returned %d: %s", rec.Code, rec.Body.String())
+				// the cache refuses the dump it wrote itself: the entries it held are lost or mixed up
+				w.Violation(id, fmt.Sprintf("/load_dump of the cache's own dump returned %d: %s", rec.Code, rec.Body.String()),
+					map[string]any{"kind": "hist", "ops": len(ops), "at": i})
+				return
 			}
 			cops = append(cops, hx.App("HReload", hx.Bool(o.fresh)))
 			obs = append(obs, "None")
